@@ -79,6 +79,9 @@ LAMBDAS = {
     'len_lt2': _named('len_lt2')(lambda x: len(x) < 2),
     'tupled': _named('tupled')(lambda x: tuple(x)),
     'argpack': _named('argpack')(lambda *a, **kw: (a, tuple(sorted(kw.items())))),
+    # in-place merge ops that ALSO return something (Merge ignores what its op returns)
+    'absorb': _named('absorb')(lambda acc, v: (acc.update(v), v)[1]),
+    'first_wins': _named('first_wins')(lambda acc, v: [acc.setdefault(k, x) for k, x in v.items()]),
 }
 
 TYPES = {'int': int, 'str': str, 'list': list, 'dict': dict, 'tuple': tuple, 'float': float,
